@@ -349,6 +349,9 @@ pub fn run(a: &Args) -> i32 {
                 for v in op.vars.iter().filter(|v| v.default.is_some()) {
                     let lit = v.default.as_deref().unwrap_or("");
                     names.push(format!("{}.{} = {}", op.name, v.name, lit));
+                    if lit.contains("null") {
+                        rep.count("default_values:containing-null");
+                    }
                     expected.push(parse_literal(lit).map(|j| coerce_default(&c.schema, &v.ty, &j, c.opts.skip_none)));
                 }
             }
